@@ -263,7 +263,7 @@ func (r *Run) Phase(name string, gen func(emit func(u interface{}) bool), work f
 		if r.stopped() {
 			return false
 		}
-		if emitted&255 == 0 && r.TimeUp() {
+		if r.TimeUp() {
 			complete = false
 			return false
 		}
